@@ -127,7 +127,8 @@ Proof.
   - rewrite expand7_cons7. destruct g as [|g].
     + pose proof (group_high7 b1 b2 b3 b4 b5 b6 b7) as Hh.
       destruct (expand7 [b1; b2; b3; b4; b5; b6; b7]) as [|x [|y t]]; try discriminate Hh.
-      cbn [map] in Hh. injection Hh as Hh. cbn [app nth]. rewrite Hh. reflexivity.
+      assert (Hx : high7 x = [b1; b2; b3; b4; b5; b6; b7]) by (cbn [map] in Hh; congruence).
+      cbn [app nth]. rewrite Hx. reflexivity.
     + pose proof (group_high7 b1 b2 b3 b4 b5 b6 b7) as Hh.
       destruct (expand7 [b1; b2; b3; b4; b5; b6; b7]) as [|x [|y t]]; try discriminate Hh.
       cbn [app nth]. rewrite IH by (cbn [length] in Hg; lia).
@@ -149,9 +150,8 @@ Qed.
 Lemma parity_bit_byte b : b < 256 -> parity_bit b = bN (negb (odd_parity b)).
 Proof.
   intros Hb.
-  assert (H : (fun b => parity_bit b =? bN (negb (odd_parity b))) b = true).
-  { apply byte_sweep; [vm_compute; reflexivity | exact Hb]. }
-  cbn beta in H. lia.
+  pose proof (byte_sweep (fun b => parity_bit b =? bN (negb (odd_parity b)))) as H.
+  cbv beta in H. specialize (H ltac:(vm_compute; reflexivity) b Hb). lia.
 Qed.
 
 (* ParityBit in general: the parity bit flips once per set bit *)
